@@ -179,18 +179,21 @@ package memfs
 //@   modifies nothing
 
 //@ func (*MemFS).createDir
+//@   event
 //@   mode bv
 //@   requires[C08] parent != nil && wheld(parent.mu)
 //@   ensures[C03] fresh(r0) && r0.mode == vfs.dirMode | (perm & avfs.FileModeMask &^ vfs.umask) && r0.uid == vfs.user.Uid() && r0.gid == vfs.user.Gid()
 //@   ensures[C05] dom(parent.children, name) && parent.children[name] is *dirNode && parent.children[name].(*dirNode) == r0
 
 //@ func (*MemFS).createFile
+//@   event
 //@   mode bv
 //@   requires[C08] parent != nil && wheld(parent.mu)
 //@   ensures[C03] fresh(r0) && r0.mode == vfs.fileMode | (perm & avfs.FileModeMask &^ vfs.umask) && r0.uid == vfs.user.Uid() && r0.gid == vfs.user.Gid()
 //@   ensures[C05] r0.nlink == 1 && dom(parent.children, name) && parent.children[name] is *fileNode && parent.children[name].(*fileNode) == r0
 
 //@ func (*MemFS).createSymlink
+//@   event
 //@   mode bv
 //@   requires[C08] parent != nil && wheld(parent.mu)
 //@   ensures[C03] fresh(r0) && r0.mode == fs.ModeSymlink | fs.ModePerm && r0.uid == vfs.user.Uid() && r0.gid == vfs.user.Gid()
@@ -218,6 +221,7 @@ package memfs
 //@ pred errsOK(v *MemFS) := v.err.FileExists != nil && v.err.NoSuchDir != nil && v.err.NoSuchFile != nil && v.err.NotADirectory != nil && v.err.PermDenied != nil && v.err.TooManySymlinks != nil && v.err.FileExists != v.err.NoSuchDir && v.err.FileExists != v.err.NoSuchFile && v.err.FileExists != v.err.NotADirectory && v.err.FileExists != v.err.PermDenied && v.err.FileExists != v.err.TooManySymlinks
 
 //@ func (*MemFS).searchNode
+//@   event
 //@   ensures[C01,C05,C07] pi != nil && err != nil
 //@   ensures[C01,C05,C07] err == vfs.err.FileExists ==> parent != nil && child != nil
 //@   ensures[C01,C05,C07] child != nil ==> parent != nil
